@@ -102,6 +102,8 @@ def add_noise(e: ESpec):
         e.extra['vis'] = ['pub', 'pub(crate)', 'pub(super)', 'pub(in crate)'][(h >> 44) % 4]
     if 'EnumString' not in consumes and (h >> 40) & 1:
         e.ci = True
+    if 'EnumString' not in consumes and (h >> 41) & 1:
+        e.phf = True   # only EnumString reads `use_phf` (and needs the phf feature for it)
     e.extra['noise'] = True
 
 
